@@ -743,6 +743,18 @@ def effectiveWf (num : Json → Option α) (queryWf : Option Json) (cfgWf : Opti
     | some w => .ok (some w)
     | none => .error .build
 
+/-- single-via over a k-shortest-paths `underlying` whose forward run returned `fr`: the reverse run
+is refused with a build error (`require_forward`), which is not a limit, so the answer is the
+shortest route alone, backtracked from the FIRST tree of the forward run (an internal error when
+there is none), with the forward run's trees and iterations -/
+def shortestAlone (c : Config α) (k source t : Nat) (fr : AlgResult α) : KspOutcome α :=
+  match fr.trees.head? with
+  | none => .err .internal
+  | some t0 =>
+    match backtrack source t t0 (c.edges.length + 2) with
+    | .error e => .err e
+    | .ok tsp => .ok { trees := fr.trees, routes := [tsp].take k, iterations := fr.iterations }
+
 /-- a configured algorithm on a query.  A* / Dijkstra: the plain search.  A k-shortest-paths
 algorithm over A* / Dijkstra: `singleViaVertex` / `yensVertex`.  A k-shortest-paths algorithm as
 `underlying` of another is followed as far as the code path needs no second nested search:
@@ -791,15 +803,7 @@ def runAlgCfg [HasSqrt α] (num : Json → Option α) (c : Config α) (gcRev : L
           match runAlgCfg num c gcRev queryK queryWf nested source target scheds pops with
           | .err e => .err e
           | .diverges w => .diverges w
-          | .ok fr =>
-            -- the reverse run of the nested algorithm is refused with a build error, which is not a
-            -- limit: the shortest route alone, backtracked from the first tree of the forward run
-            match fr.trees.head? with
-            | none => .err .internal
-            | some t0 =>
-              match backtrack source t t0 (c.edges.length + 2) with
-              | .error e => .err e
-              | .ok tsp => .ok { trees := fr.trees, routes := [tsp].take k', iterations := fr.iterations }
+          | .ok fr => shortestAlone c k' source t fr
   | .yens k under sim term, source, target, scheds, pops =>
     let simf := fun a b => (sim.getD .acceptAll).test c.edges a b
     match under with
